@@ -291,6 +291,76 @@ pub fn enc_value(v: &Value, out: &mut String) {
     }
 }
 
+/// The kind predicates and the `as_*` / `into_*` / `*_mut` accessors of a value agree with its
+/// variant (exactly the matching ones answer, with the payload itself).
+pub fn accessors_agree(v: &Value) -> bool {
+    use json_syntax::Kind;
+    let k = v.kind();
+    let flags = [v.is_null(), v.is_boolean(), v.is_number(), v.is_string(), v.is_array(), v.is_object()];
+    let kinds = [Kind::Null, Kind::Boolean, Kind::Number, Kind::String, Kind::Array, Kind::Object];
+    let want = match v {
+        Value::Null => 0,
+        Value::Boolean(_) => 1,
+        Value::Number(_) => 2,
+        Value::String(_) => 3,
+        Value::Array(_) => 4,
+        Value::Object(_) => 5,
+    };
+    let mut ok = k == kinds[want];
+    for i in 0..6 {
+        ok &= flags[i] == (i == want) && v.is_kind(kinds[i]) == (i == want);
+    }
+    let mut m = v.clone();
+    ok &= match v {
+        Value::Null => true,
+        Value::Boolean(b) => v.as_boolean() == Some(*b) && m.as_boolean_mut().map(|x| *x) == Some(*b) && v.clone().into_boolean() == Some(*b),
+        Value::Number(n) => {
+            v.as_number().map(|x| x.as_str()) == Some(n.as_str())
+                && m.as_number_mut().map(|x| x.as_str().to_string()) == Some(n.as_str().to_string())
+                && v.clone().into_number().as_ref() == Some(n)
+        }
+        Value::String(s) => {
+            v.as_string() == Some(s.as_str())
+                && v.as_str() == Some(s.as_str())
+                && m.as_string_mut().map(|x| x.as_str().to_string()) == Some(s.as_str().to_string())
+                && v.clone().into_string().as_ref() == Some(s)
+        }
+        Value::Array(a) => {
+            v.as_array() == Some(a.as_slice())
+                && m.as_array_mut().map(|x| x.len()) == Some(a.len())
+                && v.clone().into_array().as_ref() == Some(a)
+                && v.is_empty_array_or_object() == a.is_empty()
+        }
+        Value::Object(o) => {
+            v.as_object() == Some(o) && m.as_object_mut().map(|x| x.len()) == Some(o.len()) && v.clone().into_object().as_ref() == Some(o) && v.is_empty_array_or_object() == o.is_empty()
+        }
+    };
+    // the accessors of the other kinds answer None
+    ok &= v.as_boolean().is_some() == (want == 1)
+        && v.as_number().is_some() == (want == 2)
+        && v.as_string().is_some() == (want == 3)
+        && v.as_str().is_some() == (want == 3)
+        && v.as_array().is_some() == (want == 4)
+        && v.as_object().is_some() == (want == 5)
+        && v.clone().into_boolean().is_some() == (want == 1)
+        && v.clone().into_number().is_some() == (want == 2)
+        && v.clone().into_string().is_some() == (want == 3)
+        && v.clone().into_array().is_some() == (want == 4)
+        && v.clone().into_object().is_some() == (want == 5);
+    if want < 4 {
+        ok &= !v.is_empty_array_or_object();
+    }
+    let forced = v.force_as_array();
+    ok &= match v {
+        Value::Array(a) => forced == a.as_slice(),
+        other => forced.len() == 1 && &forced[0] == other,
+    };
+    let mut t = v.clone();
+    let taken = t.take();
+    ok &= &taken == v && t == Value::Null;
+    ok
+}
+
 pub fn value_str(v: &Value) -> String {
     let mut s = String::new();
     enc_value(v, &mut s);
